@@ -255,6 +255,82 @@ def lockstep_check(ctx, res):
                 break
 
 
+# ------------------------------------------------------------------------------------------------
+# sessions being torn down: what a session of the same user left behind must not change what the next one gets
+# ------------------------------------------------------------------------------------------------
+TEARDOWNS = [
+    ("user-then-vanish", ["USER foo"], "vanish"),
+    ("user-then-close", ["USER foo"], "close"),
+    ("user-then-quit", ["USER foo", "QUIT"], None),
+    ("wrong-pass-then-quit", ["USER foo", "PASS nope", "QUIT"], None),
+    ("wrong-pass-then-vanish", ["USER foo", "PASS nope"], "vanish"),
+    ("logged-then-vanish", ["USER foo", "PASS pw", "MKD /t1"], "vanish"),
+    ("logged-then-quit", ["USER foo", "PASS pw", "QUIT"], None),
+    ("relogin-then-vanish", ["USER foo", "PASS pw", "USER foo"], "vanish"),
+    ("pasv-then-vanish", ["USER foo", "PASS pw", "EPSV"], "vanish"),
+]
+
+
+async def _teardown_case(loop, first, end, with_first):
+    users = [W.UserSpec("foo", "pw", max_conn=1), W.UserSpec("bar", None)]
+    wd = W.World(loop, users)
+    await wd.start()
+    out = {}
+    try:
+        wd.set_tree(TREE)
+        if with_first:
+            a = await wd.raw_client()
+            for line in first:
+                if a.eof:
+                    break
+                await W.run_line(wd, a, line.encode())
+            if end == "vanish":
+                a.vanish()
+            elif end == "close":
+                a.close()
+            await loop.settle()
+            await asyncio.sleep(1.0)
+            await loop.settle()
+        b = await wd.raw_client()
+        recs = []
+        for line in ("USER foo", "PASS pw", "PWD", "MKD /t2", "QUIT"):
+            codes, _, _, _ = await W.run_line(wd, b, line.encode())
+            recs.append(codes)
+        out = {"recs": recs, "tree_has_t2": "t2" in wd.tree()}
+        await loop.settle()
+    finally:
+        try:
+            await wd.stop()
+        except Exception:
+            wd.finish()
+    return out
+
+
+def _teardown_job(args):
+    try:
+        return simnet.run(_teardown_case, *args)
+    except BaseException as e:  # noqa
+        return "HARNESS-ERROR %s: %s" % (type(e).__name__, e)
+
+
+def teardown_check(ctx, res):
+    solo = _teardown_job(([], None, False))
+    for name, first, end in TEARDOWNS:
+        res.cases += 1
+        res.count("kind=teardown-then-next-session")
+        o = _teardown_job((first, end, True))
+        if isinstance(o, str) or isinstance(solo, str):
+            res.disagreements.append({"correspondence": "teardown harness", "input": name, "impl": o if isinstance(o, str) else solo})
+            continue
+        res.distinct.add(("teardown", name))
+        if o != solo:
+            res.oracle_failures.append({
+                "input": {"kind": "teardown", "first_session": first, "ends_by": end or "QUIT", "name": name},
+                "what": "a session of the same (connection-limited) user that %s left the next session with %r; alone it gets %r" % (name, o, solo),
+                "signature": "C17:torn-down-session-changes-the-next",
+            })
+
+
 def run_one(spec, skews, latency=0.0, disturb=None):
     loop = SC.ILoop()
     asyncio.set_event_loop(loop)
@@ -365,6 +441,7 @@ def _check(ctx):
                 })
                 break
     lockstep_check(ctx, res)
+    teardown_check(ctx, res)
     res.samples = [{"sessions": SPECS[0], "start_skews": [0, 17], "backend_latency": 0.0}, {"sessions": SPECS[4], "start_skews": [0, 8, 11], "backend_latency": 0.003}]
     return res
 
@@ -390,6 +467,12 @@ def search(ctx, prior):
 
 def replay(ctx, doc):
     inp = doc["failure"]["input"]
+    if inp.get("kind") == "teardown":
+        o = _teardown_job((inp["first_session"], None if inp["ends_by"] == "QUIT" else inp["ends_by"], True))
+        solo = _teardown_job(([], None, False))
+        print("after the first session:", o)
+        print("alone                  :", solo)
+        return o != solo
     if inp.get("kind") == "lockstep":
         sts = tuple(inp["states"])
         both = _lock_job((sts, inp["command"], (0, 1)))
